@@ -20,7 +20,7 @@ EXPLANATION = (
 ASSUMPTIONS = [
     "denominators not proven zero on a path are non-zero; floats behave as reals in the identities",
 ]
-TECHNIQUE = "polynomial identity checking on every return path (F2), finite ordering domains (F4), co-update path rule (F6)"
+TECHNIQUE = "polynomial identity checking on every return path (F2), finite ordering domains (F4), co-update path rule (F6); abstract interpretation of proj_segment on 360 segment / query cases and of the mapOnTrack chain on 62 polyline / query configurations incl. a reference track moved in place (bounded case domains)"
 
 
 def _seg_state():
